@@ -21,6 +21,7 @@ LEVEL = 'exploration'
 ISOLATE = True      # fork per run: hidden module state cannot leak between runs (see driver.run_isolated)
 CAP = 600
 MAX_STARTS = 4000
+TASK_EVENT_CAP = 12000     # per client: statement starts + host/log events
 RULE = ('seeded generation of 1-3 jump-level models (duplicate labels, unknown labels, functions re-using global '
         'label names, shared sub-objects) executed by 2-5 interleaved clients with crash/abort/host-failure/'
         're-entrancy faults; one evaluation = one client execution compared with RefVM; non-trivial = the client '
@@ -256,12 +257,16 @@ def run(plan, stats):
                 task.crash_at = c['crash_at']
 
             def hook(opts, value, starts):
+                if task.events > TASK_EVENT_CAP:
+                    raise SimWatchdog(f'client produced more than {TASK_EVENT_CAP} seam events')
                 sched.event(task, 'stmt', starts)
                 if c.get('stall') and task.events == c['stall'][0]:
                     task.stall = c['stall'][1]
                     stats.faults['stall'] += 1
 
             def on_event(ev):
+                if task.events > TASK_EVENT_CAP:
+                    raise SimWatchdog(f'client produced more than {TASK_EVENT_CAP} seam events')
                 sched.event(task, ev[0], None)
 
             if c.get('reenter_at') is not None:
@@ -340,6 +345,9 @@ def run(plan, stats):
         if ref.error is not None and ref.error[0] == 'unsupported':
             stats.c['ref_unsupported'] += 1
             refs.append(None)
+            # the reference cannot say whether this client terminates: bound it by the budget (it is not compared)
+            if not c.get('limit'):
+                c['auto_limit'] = 150
         else:
             refs.append(ref)
 
@@ -421,7 +429,8 @@ def run(plan, stats):
     for ci, c in enumerate(plan['clients']):
         if c.get('dup_of') is not None:
             a, b = runs[ci], runs[c['dup_of']]
-            if a.outcome is not None and b.outcome is not None:
+            if a.outcome is not None and b.outcome is not None and \
+                    not any(o.error is not None and o.error[0] == 'watchdog' for o in (a.outcome, b.outcome)):
                 stats.probes['duplicate_client_pairs'] += 1
                 if a.outcome.summary() != b.outcome.summary():
                     viols.append(Violation(PROP, 'repeat', 'identical-clients-differ', {'clients': [ci, c['dup_of']]}))
